@@ -32,18 +32,29 @@ def run_case(c):
             R.append(call("hz_spelling", dict(i, sp=sp), lambda: res12(Note(n, o).to_hertz(sp) / Note().from_int(int(Note(n, o))).to_hertz(sp) - 1) if int(Note(n, o)) >= 0 else 0))
             # doubling per octave asked by name (the lowest names, Cb-0 and Cbb-0, lie below pitch number 0)
             R.append(call("hz_octave", dict(i, sp=sp), lambda: res12(Note(n, o + 1).to_hertz(sp) / Note(n, o).to_hertz(sp) / 2 - 1)))
-        def cp():
+        def used():
+            x = Note("C", 4)
+            int(x); x == Note("D", 2); x < Note("E", 3); x.to_hertz()
+            return x
+        R.append(call("text_forms", dict(i, object="used before"),
+                      lambda: {"dash": int((lambda x: (x.set_note("%s-%d" % (n, o)), x)[1])(used())),
+                               "printed": int((lambda x: (x.set_note(ast.literal_eval(repr(Note(n, o)))), x)[1])(used())),
+                               "copy": int((lambda x: (x.set_note(n, o), Note(x))[1])(used()))},
+                      lambda d: {x: integer(y) for x, y in d.items()}))
+        def cp(mkcopy=Note):
             a = Note(n, o)
             before = full(a)
-            b = Note(a)
-            b2 = Note(a)
+            b = mkcopy(a)
+            b2 = mkcopy(a)
             cb = full(b)
             b.augment(); b.change_octave(1); b.set_velocity(17); b.set_channel(3)
             after = full(a)
             ca = full(b)
             a.diminish(); a.change_octave(2); a.set_velocity(99)
             return {"orig_before": before, "orig_after": after, "copy_before": cb, "copy_after": ca, "copy2_after": full(b2)}
-        R.append(call("copy", i, cp))
+        import copy as _copy
+        for via, mkcopy in (("Note(note)", Note), ("copy.copy", _copy.copy), ("copy.deepcopy", _copy.deepcopy)):
+            R.append(call("copy", dict(i, via=via), lambda: cp(mkcopy)))
         def ad():
             a = Note(n, o); a.augment(); aug = proj(a); a.diminish(); back = proj(a)
             d = Note(n, o); d.diminish()
